@@ -41,15 +41,21 @@ SUPER = 1326
 RED_N = (1, 2, 3, 5, 8, 37, 63, 64)
 FULL_FNS = list(range(64 * SUPER)) + list(range(HYPER - SUPER, HYPER))
 TRX_HSN = (0, 1, 5, 37, 63)
+# order-independence ("history") pass: FN fixed in the outer loop, every configuration in the inner loops
+HIST_FIX = [0, 1, 2, 25, 26, 50, 51, 52, 1325, 1326, 1327, 84863, 84864, 84865, 65535, 65536, 65537, 1048575, 1048576,
+            HYPER // 2, HYPER - 1327, HYPER - 1326, HYPER - 2, HYPER - 1]
+HIST_FNS = HIST_FIX + [(i * 283 + 17) % (64 * SUPER) for i in range(300)]      # the driver's list (`hist`)
+HIST_FNS_PY = HIST_FIX + [(i * 283 + 17) % (64 * SUPER) for i in range(0, 300, 3)]
+HIST_BASES = (512, 700)
 _exe = None
 
 
-def ma_val(i):
-    return 512 + (29 * i + 7) % 64
+def ma_val(i, base=512):
+    return base + (29 * i + 7) % 64
 
 
-def make_ma(n):
-    return [ma_val(i) for i in range(n)]
+def make_ma(n, base=512):
+    return [ma_val(i, base) for i in range(n)]
 
 
 def maio_set(n):
@@ -283,6 +289,60 @@ def _py_hsn0(n):
     return res
 
 
+_hist_objs = None
+
+
+def _py_hist(fns):
+    """Order independence on the Python side: for a fixed FN, HoppingParams objects of *all*
+    configurations (two MA contents per (hsn, N, maio)) are resolved one after the other, every
+    fifth one twice in a row; each result must be the spec value for that object's own parameters."""
+    global _hist_objs
+    gs = _toolkit()
+    if _hist_objs is None:
+        _hist_objs = []
+        for hsn in range(64):
+            for n in range(1, 65):
+                for maio in maio_set(n):
+                    for base in HIST_BASES:
+                        ma = make_ma(n, base)
+                        _hist_objs.append((hsn, maio, n, base, ma, gs.HoppingParams(hsn, maio, ma)))
+    res = {"cov": {"python_history_calls": 0, "python_history_fns": 0}, "viol": [], "nviol_extra": 0}
+    for fn in fns:
+        res["cov"]["python_history_fns"] += 1
+        got = []
+        for k, o in enumerate(_hist_objs):
+            try:
+                g = o[5].resolve(fn)
+                if k % 5 == 0:
+                    g2 = o[5].resolve(fn)
+                    res["cov"]["python_history_calls"] += 1
+                    if g2 != g:
+                        g = ("first call", g, "second call", g2)
+            except Exception as e:
+                g = repr(e)
+            got.append(g)
+        res["cov"]["python_history_calls"] += len(got)
+        exp = [o[4][hopping.mai(o[0], o[1], o[2], fn)] for o in _hist_objs]
+        if got != exp:
+            bad = [i for i in range(len(got)) if got[i] != exp[i]]
+            res["nviol_extra"] += len(bad)
+            seen = set()
+            for i in bad:
+                hsn, maio, n, base, ma, _ = _hist_objs[i]
+                key = "C07:python:history:hsn%s:N=%d" % ("=0" if hsn == 0 else "!=0", n)
+                if key in seen:
+                    continue
+                seen.add(key)
+                res["nviol_extra"] -= 1
+                prev = _hist_objs[i - 1][:4] if i else None
+                res["viol"].append((key, {"impl": "python-history", "fn": fn},
+                                    "with FN=%d fixed and objects of all configurations resolved in turn, "
+                                    "HoppingParams(hsn=%d, maio=%d, ma=<%d channels from %d>).resolve(%d) = %r (previous object: hsn/maio/N/base %r); "
+                                    "TS 45.002 6.2.3 gives MAI=%d -> channel %d"
+                                    % (fn, hsn, maio, n, base, fn, got[i], prev, hopping.mai(hsn, maio, n, fn), exp[i])))
+    return res
+
+
 def _pairs(n):
     """N (rx, tx) pairs in kHz: all rx distinct, all tx distinct, no rx value is a tx value."""
     return [(935000 + 200 * (ma_val(i) - 512), 890000 + 200 * (ma_val((5 * i + 3) % 64) - 512)) for i in range(n)]
@@ -383,6 +443,35 @@ def _take_fw(ctx, what, rc, out, err, tot, seen):
         seen.update((i + 1, b) for b in range(64) if v >> b & 1)
 
 
+def _take_hist(ctx, what, rc, out, err, tot):
+    js = None
+    for line in out.splitlines():
+        if line.startswith("H "):
+            f = dict(p.split("=") for p in line.split()[1:])
+            hsn, n, kind = int(f["hsn"]), int(f["n"]), f["kind"]
+            cls = ("hsn%s:N=%d" % ("=0" if hsn == 0 else "!=0", n)) if kind in ("hop", "again") else kind
+            exp = "TS 45.002 6.2.3 gives MAI=%s -> channel %s" % (f["spec"], f["want"]) if kind in ("hop", "again") else \
+                "expected channel %s (%s)" % (f["want"], "h0.arfcn of the non-hopping dedicated channel" if kind == "nonhop"
+                                               else "ARFCN of the serving cell, no dedicated channel")
+            ctx.violation("C07:firmware:history:%s" % cls, {"impl": "firmware-history", "idx": int(f["idx"])},
+                          "with FN=%s fixed and the channel description changing between calls (%s), rfch_get_params with "
+                          "hsn=%d maio=%s N=%d MA base %s returns channel %s (MA index %s); %s - the result depends on the call history"
+                          % (f["fn"], {"hop": "next hopping configuration", "again": "hopping again after non-hopping / idle",
+                                       "nonhop": "non-hopping channel", "none": "no dedicated channel"}[kind],
+                             hsn, f["maio"], n, f["base"], f["fw"], f["fwidx"], exp))
+        elif line.startswith("{"):
+            js = json.loads(line)
+    if js is None:
+        marks = [l for l in out.splitlines() if l.startswith("P ")]
+        ctx.violation("C07:firmware:crash", {"impl": "firmware-run", "args": what},
+                      "driver died (rc=%d) in `%s` (last marker: %s): %s"
+                      % (rc, " ".join(map(str, what)), marks[-1] if marks else "none", err))
+        return
+    for k in ("hist_fns", "hist_hopping", "hist_hopping_repeat", "hist_nonhopping", "hist_serving_cell"):
+        tot[k] = tot.get(k, 0) + js[k]
+    ctx.n_violations += max(0, js["violations"] - 20)
+
+
 def _take_py(ctx, res, seen=None):
     if "crash" in res:
         what, rc, err = res["crash"]
@@ -436,13 +525,32 @@ def run(ctx):
             trxseen.update(res.pop("seen_pairs"))
             ctx.merge(res)
 
+        # -- order independence: FN outermost, all configurations (and non-hopping / idle settings) inside
+        htot = {}
+        nh = len(HIST_FNS)
+        cuts = [nh * i // 32 for i in range(33)]
+        hslices = [["hist", cuts[i], cuts[i + 1]] for i in range(32)]
+        for what, (rc, out, err) in zip(hslices, ctx.pmap(_fw_run, hslices)):
+            _take_hist(ctx, what, rc, out, err, htot)
+        for res in ctx.pmap(_py_hist, [HIST_FNS_PY[i:i + 4] for i in range(0, len(HIST_FNS_PY), 4)]):
+            ctx.merge(res)
+        ncfg = 64 * sum(len(maio_set(n)) for n in range(1, 65)) * len(HIST_BASES)
+        c["history_configurations_per_fn"] = ncfg
+        c["firmware_history_fns"] = htot.get("hist_fns", 0)
+        c["firmware_history_hopping_calls"] = htot.get("hist_hopping", 0) + htot.get("hist_hopping_repeat", 0)
+        c["firmware_history_nonhopping_calls"] = htot.get("hist_nonhopping", 0)
+        c["firmware_history_serving_cell_calls"] = htot.get("hist_serving_cell", 0)
+        hist_ok = (htot.get("hist_fns", 0) == nh and htot.get("hist_hopping", 0) == nh * ncfg
+                   and c.get("python_history_fns", 0) == len(HIST_FNS_PY)
+                   and c.get("python_history_calls", 0) == len(HIST_FNS_PY) * (ncfg + (ncfg + 4) // 5))
         c["python_distinct_n_mai"] = len(pyseen)
         c["transceiver_distinct_n_mai"] = len(trxseen)
         c["distinct_n_mai_outcomes"] = len(fwseen | pyseen)
         c["python_full_N"] = list(ns)
         c["python_evaluations"] = c.get("python_reduced", 0) + c.get("python_hsn0", 0) + c.get("python_full", 0) \
-            + c.get("transceiver_lookups", 0)
-        c["evaluations"] = c["firmware_evaluations"] + c["python_evaluations"]
+            + c.get("transceiver_lookups", 0) + c.get("python_history_calls", 0)
+        c["evaluations"] = c["firmware_evaluations"] + c["python_evaluations"] + c["firmware_history_hopping_calls"] \
+            + c["firmware_history_nonhopping_calls"] + c["firmware_history_serving_cell_calls"]
         c["distinct_nontrivial"] = tot.get("nontrivial", 0)
         c["rule"] = ("every (HSN, MAIO, N, FN) tuple of the stated product is evaluated exactly once per implementation "
                      "(firmware inside the C driver, Python in 16 worker processes); a tuple is non-trivial when N >= 2, "
@@ -452,10 +560,11 @@ def run(ctx):
         py_full_expected = sum(len(fm[n]) for n in ns) * 63 * len(FULL_FNS)
         c["exhaustive"] = bool(c["firmware_evaluations"] == fw_expected
                                and c.get("python_reduced", 0) == py_red_expected
-                               and c.get("python_full", 0) == py_full_expected)
+                               and c.get("python_full", 0) == py_full_expected and hist_ok)
         c["bound"] = ("firmware: HSN 0..63 x N 1..64 x MAIO {0,1,N-1,63} x 86190 FN (T1 0..63 and T1 2047) + HSN 0 with MAIO 0..63; "
+                      "history pass: %d FN (firmware) / %d FN (python) x all HSN x N x MAIO {0,1,N-1,63} x 2 MA contents with FN outermost; "
                       "python: reduced space complete, full space (HSN 1..63 x 86190 FN) for %s"
-                      % ("N 1..64 x MAIO {0,1,N-1,63}" if not ctx.quick else "N in %s x MAIO {0,63}" % (list(RED_N),)))
+                      % (len(HIST_FNS), len(HIST_FNS_PY), "N 1..64 x MAIO {0,1,N-1,63}" if not ctx.quick else "N in %s x MAIO {0,63}" % (list(RED_N),)))
         ctx.sample({"hsn": 5, "maio": 0, "n": 3, "fn": 0, "spec_mai": hopping.mai(5, 0, 3, 0)})
         ctx.sample({"hsn": 63, "maio": 63, "n": 64, "fn": 2715647, "spec_mai": hopping.mai(63, 63, 64, 2715647)})
         ctx.sample({"hsn": 0, "maio": 63, "n": 37, "fn": 2715647, "spec_mai": hopping.mai(0, 63, 37, 2715647)})
@@ -492,6 +601,11 @@ def replay(ctx, case):
             if got != ma[want]:
                 ctx.violation(_pykey(hsn, n), case, _pymsg(hsn, maio, n, fn, got, want))
         return
+    if impl == "python-history":
+        res = _py_hist([case["fn"]])
+        for v in res["viol"]:
+            ctx.violation(*v)
+        return
     if impl == "transceiver":
         from vlib import world
         world.install()
@@ -505,9 +619,16 @@ def replay(ctx, case):
         return
     b, _exe = _build("c07r")
     try:
+        if impl == "firmware-history":
+            what = ["hist", case["idx"], case["idx"] + 1]
+            rc, out, err = _fw_run(what)
+            _take_hist(ctx, what, rc, out, err, {})
+            return
         if impl == "firmware-run":
             rc, out, err = _fw_run(case["args"])
-            if case["args"][0] in ("full", "hsn0"):
+            if case["args"][0] == "hist":
+                _take_hist(ctx, case["args"], rc, out, err, {})
+            elif case["args"][0] in ("full", "hsn0"):
                 _take_fw(ctx, case["args"], rc, out, err, {}, set())
             elif rc not in (0, 1):
                 ctx.violation("C07:firmware:crash", case, "driver died (rc=%d) in `%s`: %s" % (rc, " ".join(map(str, case["args"])), err))
